@@ -585,7 +585,7 @@ def tensor_method(it, base: VTensor, name, args, kwargs, node):
         if args:
             return VInt(shp[_int_list(it, args[0])[0]])
         return VTuple(tuple(VInt(s) for s in shp))
-    if name in ("squeeze", "unsqueeze", "sum", "diagonal"):
+    if name in ("squeeze", "unsqueeze", "sum", "diagonal", "transpose", "swapaxes", "tile", "conj_physical"):
         return function(it, "torch." + name, [base] + list(args), kwargs, None, node)
     if name == "requires_grad_":
         return base
@@ -799,6 +799,15 @@ def builtin(it, name, args, kwargs, fr, node):
                     raise Unmodelled("set with undecidable element equality")
                 out.append(x)
         return VList(out)
+    if name == "iter":
+        return VList(list(it.iter_concrete(args[0])))
+    if name == "next":
+        v = args[0]
+        if isinstance(v, VList) and v.items:
+            return v.items.pop(0)
+        if isinstance(v, VList):
+            raise Raised("StopIteration", "next() on an exhausted iterator")
+        raise Unmodelled("next() on a symbolic iterator")
     if name == "print":
         return VNone()
     if name == "slice":
@@ -847,6 +856,8 @@ def _dtype_of(kwargs, default="?"):
     d = kwargs.get("dtype")
     if isinstance(d, VOpaque):
         return d.tag
+    if isinstance(d, VFunc):
+        return "fixed:" + d.dotted
     return default
 
 
@@ -877,6 +888,14 @@ def torch_function(it, dotted, last, args, kwargs, node):
         if isinstance(args[1], VIndexSeq):
             raise Unmodelled("symbolic permutation")
         return VTensor(args[0].dense().permute(_int_list(it, args[1])), args[0].dtype)
+    if last in ("transpose", "swapaxes", "swapdims"):
+        d = args[0].dense()
+        a, b = _int_list(it, args[1])[0] % d.ndim(), _int_list(it, args[2])[0] % d.ndim()
+        perm = list(range(d.ndim()))
+        perm[a], perm[b] = perm[b], perm[a]
+        return VTensor(d.permute(perm), args[0].dtype)
+    if last in ("conj_physical", "resolve_conj"):
+        return VTensor(args[0].val.conj(), args[0].dtype) if last == "conj_physical" else args[0]
     if last == "conj":
         if isinstance(args[0], VScalar):
             return args[0]
